@@ -47,6 +47,12 @@ def run(tier, seed, ev):
                 cases.append(arc.Member(level=lvl, method=b"-lhd-", name=b"", payload=b"", os=rng.choice([ord("U"), 0, ord("M")]), exts=ex).bytes())
                 ex2 = [arc.x_name(full), arc.x_perm(0o120755)]
                 cases.append(arc.Member(level=lvl, method=b"-lhd-", name=b"", payload=b"", os=ord("U"), exts=ex2).bytes())
+    # two stored strings in one header (in-header name with a directory part next to path / file name headers, both orders)
+    import c11
+    small = [bytes(t) for L in range(0, 3) for t in itertools.product([ord("."), ord("/"), ord("\\"), ord("a"), ord("B")], repeat=L)]
+    for i1, s1 in enumerate(small):
+        for i2, s2 in enumerate(small):
+            cases += c11.pair_carriers(s1, s2, [0, ord("U"), ord("M"), ord("m")][(i1 + i2) % 4])
     viols, good = HC.run_and_validate("C05", "Trace_Header_C05", cases, sc, ev, "c05")
     ev.add("traces_validated_against_impl", good)
     ev.set("cases", len(cases))
